@@ -475,7 +475,7 @@ theorem det_close_flt (hw : FltWriter wr flt) (pieces : Bytes → List Bytes) (s
     cases ok with
     | true =>
       have hh := encode_true_healthy wr pieces st.codec (sigPkt st.msg) (by rw [he])
-      simp only [hh.1, Bool.false_eq_true, if_false, if_true, Nat.add_zero] at hfl
+      have hfl := hfl.1 rfl
       simp only
       refine ⟨fun _ => hfl, fun h => ?_, fun h => absurd hfl h⟩
       rw [hh.1] at h; cases h
